@@ -64,6 +64,14 @@ func Pair(name string) (*Conn, *Conn) {
 	return a, b
 }
 
+// PairAddr is Pair with explicit addresses: a's local = b's remote = addrA, and vice versa.
+func PairAddr(addrA, addrB string) (*Conn, *Conn) {
+	a, b := Pair("")
+	a.local, a.remote = Addr{addrA}, Addr{addrB}
+	b.local, b.remote = Addr{addrB}, Addr{addrA}
+	return a, b
+}
+
 func (c *Conn) Read(p []byte) (int, error) {
 	h := c.rd
 	h.mu.Lock()
